@@ -166,8 +166,9 @@ func (it *amapIter) next() tuple {
 		return tuple{false, nil, nil}
 	}
 	j := 0
-	if it.sym && len(it.keys) > 1 {
+	if it.sym && len(it.keys) > 1 && (it.i.mapOrderBudget == 0 || it.i.mapOrderUsed < it.i.mapOrderBudget) {
 		j = it.i.choose(len(it.keys), "maporder")
+		it.i.mapOrderUsed++
 	}
 	k, v := it.keys[j], it.vals[j]
 	it.keys = append(it.keys[:j:j], it.keys[j+1:]...)
